@@ -171,8 +171,8 @@ func main() {
 			rep.Functions = append(rep.Functions, name)
 			modes := modesOf(fc)
 			for mi, mode := range modes {
-			enc := p.Verify(fn, fc, mode, mi == 0, len(modes) > 1, nil)
-			enc = p.Verify(fn, fc, mode, mi == 0, len(modes) > 1, enc.c.memSorts)
+			enc := p.Verify(fn, fc, mode, mi == 0, len(modes) > 1, nil, nil)
+			enc = p.Verify(fn, fc, mode, mi == 0, len(modes) > 1, enc.c.memSorts, enc.sortedOrdLog())
 			for _, e := range enc.errs {
 				rep.Errors = append(rep.Errors, name+": "+e)
 			}
